@@ -26,6 +26,31 @@ DOM_KINDS = ["default1d", "default2d", "cont1d", "cont2d", "image2d_C", "image2d
 RNG_KINDS = ["default1d", "default2d", "cont1d", "cont2d", "image2d_C", "image2d_F", "discrete",
              "mapped", "kl", "step", "user"]
 
+# ---- MappedGeometry alphabet: map x base geometry -------------------------------------------------
+# kind "map_<map>_<base>[_grad]".  Maps (all invertible, the inverse is handed to the library as `imap`):
+#   ew      element-wise sinh                                   (commutes with every reshaping)
+#   cs      cumulative sum along axis 0 (down the image rows)   inverse: differences along axis 0
+#   perm    cyclic shift by one along every axis                inverse: shift back
+#   mix     dense linear mixing W @ f (acts along axis 0)       inverse: solve
+#   cssinh  cumulative sum of sinh (non-linear, not element-wise; only with an attached `gradient`)
+# Bases: c1 Continuous1D (1-D function space), imgC / imgF Image2D in row-/column-major order, c2 Continuous2D.
+# The kinds "mapped"/"mapped_grad" of the original catalogue are (ew, c1).
+MAP_NAMES = ["ew", "cs", "perm", "mix"]
+MAP_BASES = ["c1", "imgC", "imgF", "c2"]
+MAPPED_KINDS = ["map_%s_%s" % (m_, b_) for m_ in MAP_NAMES for b_ in MAP_BASES if (m_, b_) != ("ew", "c1")]
+MAPPED_GRAD_KINDS = ["map_cssinh_c1_grad", "map_cssinh_imgF_grad"]          # domain only
+# quick tier: every non-element-wise map over a reshaping base, every base, one 1-D base per role
+QUICK_MAPPED_DOM = ["map_cs_imgF", "map_perm_c2", "map_mix_imgC", "map_cs_c1", "map_cssinh_imgF_grad"]
+QUICK_MAPPED_RNG = ["map_cs_imgC", "map_perm_imgF", "map_mix_c2", "map_mix_c1"]
+
+
+def parse_map_kind(kind):
+    """('cs', 'imgF', has_gradient) of a kind 'map_cs_imgF[_grad]', else None."""
+    if not kind.startswith("map_"):
+        return None
+    parts = kind.split("_")
+    return parts[1], parts[2], kind.endswith("_grad")
+
 _SIZES = {
     # kind-family: {role: [variant0, variant1]}
     "1d": {"dom": [4, 6], "rng": [3, 5]},
@@ -39,6 +64,9 @@ _SIZES = {
 
 
 def _family(kind):
+    mk = parse_map_kind(kind)
+    if mk is not None:
+        return "1d" if mk[1] == "c1" else "2d"
     if kind in ("default1d", "cont1d", "discrete", "mapped", "mapped_grad"):
         return "1d"
     if kind in ("default2d", "cont2d", "image2d_C", "image2d_F", "image2d_vis"):
@@ -92,6 +120,128 @@ def _user_geometry_class():
     return _USER_CLS
 
 
+# ----------------------------------------------------------------------------------------------
+# MappedGeometry alphabet.  (a) the maps as a user hands them to the library: module-level numpy expressions, one
+# function object per map (separately constructed geometries with the same map compare equal);
+# (b) the harness' own dense versions of the same maps (explicit index loops / dense matrices) for the oracle.
+# ----------------------------------------------------------------------------------------------
+def _u_cs(x):
+    return np.cumsum(x, axis=0)
+
+
+def _u_ics(f):
+    return np.diff(f, axis=0, prepend=0)
+
+
+def _u_perm(x):
+    for ax in range(np.ndim(x)):
+        x = np.roll(x, 1, axis=ax)
+    return x
+
+
+def _u_iperm(f):
+    for ax in range(np.ndim(f)):
+        f = np.roll(f, -1, axis=ax)
+    return f
+
+
+def _u_cssinh(x):
+    return np.cumsum(np.sinh(x), axis=0)
+
+
+def _u_icssinh(f):
+    return np.arcsinh(np.diff(f, axis=0, prepend=0))
+
+
+_MIX = {}
+
+
+def _mix(n0, k):
+    """(map, imap, W) of the dense mixing along axis 0; memoised so that equal geometries share the callables."""
+    if (n0, k) not in _MIX:
+        W = 0.5 * refs.full_matrix(n0, n0, k + 2)
+        if np.linalg.cond(W) > 1e3:
+            raise AssertionError("harness: ill-conditioned mixing matrix")
+        _MIX[(n0, k)] = ((lambda x, W=W: W @ x), (lambda f, W=W: np.linalg.solve(W, f)), W)
+    return _MIX[(n0, k)]
+
+
+def _user_maps(mname, n0, k):
+    if mname == "ew":
+        return np.sinh, np.arcsinh
+    if mname == "cs":
+        return _u_cs, _u_ics
+    if mname == "perm":
+        return _u_perm, _u_iperm
+    if mname == "cssinh":
+        return _u_cssinh, _u_icssinh
+    if mname == "mix":
+        return _mix(n0, k)[:2]
+    raise ValueError(mname)
+
+
+def _cssinh_gradient(base):
+    """User-written `gradient` of MappedGeometry(base, cumsum(sinh)): J_par2fun(wrt)^T direction, as parameters.
+    A flat direction follows the parameter index (convention of the module docstring), an image is taken as it is."""
+    def gradient(direction, wrt):
+        d = np.asarray(direction)
+        if d.ndim == 1 and len(base.fun_shape) == 2:
+            d = base.par2fun(d)
+        rc = np.flip(np.cumsum(np.flip(d, 0), 0), 0)
+        return base.fun2par(np.cosh(base.par2fun(np.asarray(wrt))) * rc)
+    return gradient
+
+
+def _ref_maps(mname, n0, k):
+    """Dense reference (map, imap) on float arrays of shape (n0,) or (n0, n1), written without the numpy routines
+    the user-side maps are made of."""
+    L = np.array([[1.0 if j <= i else 0.0 for j in range(n0)] for i in range(n0)])
+
+    def diff0(F):
+        F = np.asarray(F, dtype=float)
+        out = np.array(F, dtype=float)
+        for i in range(n0 - 1, 0, -1):
+            out[i] = F[i] - F[i - 1]
+        return out
+
+    def shift(F, s):
+        F = np.asarray(F, dtype=float)
+        out = np.empty_like(F)
+        if F.ndim == 1:
+            for i in range(F.shape[0]):
+                out[i] = F[(i - s) % F.shape[0]]
+        else:
+            for i in range(F.shape[0]):
+                for j in range(F.shape[1]):
+                    out[i, j] = F[(i - s) % F.shape[0], (j - s) % F.shape[1]]
+        return out
+
+    if mname == "ew":
+        return (lambda F: np.sinh(F)), (lambda F: np.arcsinh(F))
+    if mname == "cs":
+        return (lambda F: L @ F), diff0
+    if mname == "perm":
+        return (lambda F: shift(F, 1)), (lambda F: shift(F, -1))
+    if mname == "cssinh":
+        return (lambda F: L @ np.sinh(F)), (lambda F: np.arcsinh(diff0(F)))
+    if mname == "mix":
+        W = _mix(n0, k)[2]
+        Wi = np.linalg.inv(W)
+        return (lambda F: W @ F), (lambda F: Wi @ F)
+    raise ValueError(mname)
+
+
+def _reshaping_index(n1, n2, order):
+    """image[i, j] = p[idx[i, j]], p[q] = image.reshape(-1)[inv[q]]  (explicit index arithmetic)."""
+    idx = np.empty((n1, n2), dtype=int)
+    for i in range(n1):
+        for j in range(n2):
+            idx[i, j] = i * n2 + j if order == "C" else i + j * n1
+    inv = np.empty(n1 * n2, dtype=int)
+    inv[idx.reshape(-1)] = np.arange(n1 * n2)
+    return idx, inv
+
+
 class RefGeom:
     """Library geometry + dense reference maps (the harness' own implementation)."""
 
@@ -104,7 +254,37 @@ class RefGeom:
         self.has_gradient = kind in ("mapped_grad", "kl_grad", "step_grad", "user")
         fam = _family(kind)
         self.arg = None        # what is passed to the model constructor (int/tuple for defaults)
-        if fam == "1d":
+        self._index = None     # index image of a reshaping (base) geometry
+        mk = parse_map_kind(kind)
+        if mk is not None:
+            # MappedGeometry(base, map, imap): par2fun = map o base.par2fun, fun2par = base.fun2par o imap (documented)
+            mname, bname, with_grad = mk
+            self.has_gradient = with_grad
+            if bname == "c1":
+                n = size
+                self.n, self.fshape, n0 = n, (n,), n
+                base = G.Continuous1D(np.cumsum(1.0 + 0.25 * np.arange(n)))
+                bp2f, bf2p = (lambda p: p), (lambda f: f)
+            else:
+                n1, n2 = size
+                self.n, self.fshape, n0 = n1 * n2, (n1, n2), n1
+                order = "F" if bname == "imgF" else "C"
+                if bname == "c2":
+                    base = G.Continuous2D((np.cumsum(1.0 + 0.5 * np.arange(n1)), 0.5 * np.arange(n2)))
+                else:
+                    base = G.Image2D((n1, n2), order=order)
+                idx, inv = _reshaping_index(n1, n2, order)
+                self._index = idx
+                bp2f = lambda p, idx=idx: np.asarray(p)[idx]
+                bf2p = lambda f, inv=inv: np.asarray(f).reshape(-1)[inv]
+            umap, uimap = _user_maps(mname, n0, k)
+            self.arg = G.MappedGeometry(base, map=umap, imap=uimap)
+            if with_grad:
+                self.arg.gradient = _cssinh_gradient(base)
+            rmap, rimap = _ref_maps(mname, n0, k)
+            self._p2f = lambda p: rmap(bp2f(p))
+            self._f2p = lambda f: bf2p(rimap(np.asarray(f, dtype=float).reshape(self.fshape)))
+        elif fam == "1d":
             n = size
             self.n, self.fshape = n, (n,)
             if kind == "default1d":
@@ -140,12 +320,8 @@ class RefGeom:
                 else:
                     self.arg = G.Image2D((n1, n2), order=order)
                 # image[i, j] = p[i*n2 + j] (C) or p[i + j*n1] (F), by explicit index arithmetic
-                idx = np.empty((n1, n2), dtype=int)
-                for i in range(n1):
-                    for j in range(n2):
-                        idx[i, j] = i * n2 + j if order == "C" else i + j * n1
-                inv = np.empty(self.n, dtype=int)
-                inv[idx.reshape(-1)] = np.arange(self.n)            # p[q] = image.reshape(-1)[inv[q]]
+                idx, inv = _reshaping_index(n1, n2, order)          # p[q] = image.reshape(-1)[inv[q]]
+                self._index = idx
                 self._p2f = lambda p, idx=idx: np.asarray(p)[idx]
                 self._f2p = lambda f, inv=inv: np.asarray(f).reshape(-1)[inv]
         elif fam == "kl":
@@ -191,7 +367,7 @@ class RefGeom:
         # V: C-ordered function vector = V @ "natural" vector (parameter index for reshaping
         # geometries, the function vector itself for 1-D function spaces)
         if len(self.fshape) == 2:
-            q = self._p2f(np.arange(self.n)).reshape(-1)
+            q = self._index.reshape(-1)
             V = np.zeros((self.fdim, self.n))
             V[np.arange(self.fdim), q] = 1.0
             self.V = V
@@ -227,6 +403,24 @@ def int_point(n, k):
 # ----------------------------------------------------------------------------------------------
 MODELS = ["jac", "grad", "nograd", "lin_mat", "lin_fun", "pde_poisson", "pde_poisson_jac",
           "pde_poisson_vjp", "pde_heat_fe", "pde_heat_be"]
+# derived models: members of the catalogue produced by the library's model-producing operations.  LinearModel.T is
+# the only operation of cuqi/model/_model.py that returns a new model (besides model(distribution), which has its own
+# check): "<linear kind>_T" is B.T of a base model B built from the transposed operator on the swapped spaces (so the
+# catalogue member maps the cell's domain to the cell's range), "<linear kind>_TT" is (B.T).T of a base B : domain -> range.
+DERIVED_MODELS = ["lin_mat_T", "lin_fun_T"]
+DERIVED_MODELS_THOROUGH = ["lin_mat_TT", "lin_fun_TT"]
+
+
+def base_kind(name):
+    """'lin_mat_T' -> ('lin_mat', 'T'); underived names -> (name, '')."""
+    for suffix in ("_TT", "_T"):
+        if name.endswith(suffix):
+            return name[:-len(suffix)], suffix[1:]
+    return name, ""
+
+
+def needs_1d_function_spaces(name):
+    return base_kind(name)[0] == "lin_mat"
 
 
 def lin_mat_applicable(dom, rng):
@@ -276,6 +470,48 @@ def build_model(name, gd, gr, k):
             v = np.asarray(xf, float).reshape(-1)
             return (A @ np.sin(v) + 0.5 * (Bm @ v) ** 2).reshape(rshape)
         out.f = f
+        return out
+
+    bname, derivation = base_kind(name)
+    if derivation:
+        # the reference operator is the same dense Al : domain function values -> range function values
+        Al = refs.full_matrix(mf, nf, k)
+        AlT = np.array([[Al[i, j] for i in range(mf)] for j in range(nf)])
+        if derivation == "T":
+            # base model B : (cell range) -> (cell domain), B = Al^T; the catalogue member is B.T
+            def b_forward(y):
+                return (AlT @ y.reshape(-1)).reshape(dshape)
+
+            def b_adjoint(x):
+                return (Al @ x.reshape(-1)).reshape(rshape)
+            bmat, brange, bdomain = AlT, gd.arg, gr.arg
+        else:
+            # base model B : (cell domain) -> (cell range), B = Al; the catalogue member is (B.T).T
+            def b_forward(x):
+                return (Al @ x.reshape(-1)).reshape(rshape)
+
+            def b_adjoint(y):
+                return (AlT @ y.reshape(-1)).reshape(dshape)
+            bmat, brange, bdomain = Al, gr.arg, gd.arg
+        if bname == "lin_mat":
+            B = cuqi.model.LinearModel(bmat.copy(), range_geometry=brange, domain_geometry=bdomain)
+        elif bname == "lin_inferred":
+            B = cuqi.model.LinearModel(bmat.copy())
+        else:
+            B = cuqi.model.LinearModel(b_forward, b_adjoint, range_geometry=brange, domain_geometry=bdomain)
+        out.base = B
+        out.derivation = "T" if derivation == "T" else "T.T"
+        if derivation == "T":
+            out.expect = (B.range_geometry, B.domain_geometry)      # (domain, range) of the derived model
+        else:
+            out.expect = (B.domain_geometry, B.range_geometry)
+        try:
+            out.model = B.T if derivation == "T" else B.T.T
+        except Exception as e:  # noqa  judged by the check (no refusal is documented for the transpose)
+            out.model, out.error = None, e
+        out.has_grad = True
+        out.f = lambda xf: (Al @ np.asarray(xf, float).reshape(-1)).reshape(rshape)
+        out.fT = lambda yf: (AlT @ np.asarray(yf, float).reshape(-1)).reshape(dshape)
         return out
 
     if name in ("lin_mat", "lin_fun", "lin_inferred"):
